@@ -26,6 +26,7 @@ type Rec struct {
 	Comm    *core.BlockCommitments
 	Classes map[felt.Felt]*core.DeclaredClassDefinition
 	NewCls  bool // classes written through core/state (new backend) instead of core (legacy)
+	Casm    map[felt.SierraClassHash]core.ClassCasmHashMetadata
 }
 
 // WriteRec stores a record with the same writers and in the same order as
@@ -56,6 +57,11 @@ func WriteRec(d db.KeyValueStore, rec *Rec) error {
 			}
 			if err != nil {
 				return fmt.Errorf("WriteClass: %w", err)
+			}
+		}
+		for ch, md := range rec.Casm {
+			if err := core.WriteClassCasmHashMetadata(w, &ch, &md); err != nil {
+				return fmt.Errorf("WriteClassCasmHashMetadata: %w", err)
 			}
 		}
 		return core.WriteChainHeight(w, rec.Header.Number)
@@ -375,6 +381,16 @@ func ReadBack(c *Checker, d db.KeyValueStore, bc *blockchain.Blockchain, rec *Re
 			}
 			ok, err := core.HasClass(d, &ch)
 			c.eq("core.HasClass", err, ok, true)
+		}
+		for ch, md := range rec.Casm {
+			got, err := core.GetClassCasmHashMetadata(d, &ch)
+			c.n++
+			c.res.Hit("accessor:core.GetClassCasmHashMetadata")
+			if err != nil {
+				c.fail("core.GetClassCasmHashMetadata", "error", errClass(err), err.Error())
+			} else if !reflect.DeepEqual(got, md) {
+				c.fail("core.GetClassCasmHashMetadata", "value", "", fmt.Sprintf("stored %+v, read %+v", md, got))
+			}
 		}
 	})
 }
